@@ -521,7 +521,14 @@ func genScript(rng *prng.R, errp int) []outcome {
 	return sc
 }
 
+func pickStr(rng *prng.R, xs ...string) string { return xs[rng.Intn(len(xs))] }
+
+var focusFid int64 = -1
+
 func pickFid(rng *prng.R) int64 {
+	if focusFid >= 0 && rng.Chance(7, 10) {
+		return focusFid
+	}
 	switch x := rng.Intn(40); {
 	case x == 0:
 		return nofid
@@ -695,8 +702,49 @@ func runCase(rng *prng.R) caseResult {
 	}
 	// concurrent part
 	nconc := rng.Range(2, 6)
+	focusFid = -1
+	if rng.Chance(1, 2) {
+		focusFid = int64(rng.Intn(3))
+	}
+	defer func() { focusFid = -1 }()
 	errp := rng.Pick(5, 20, 40)
 	startedConc := 0
+	// one case in six is a directed race on one fid (the rest of the schedule stays random)
+	var scenario []opDesc
+	if nsetup >= 2 && rng.Chance(1, 6) {
+		okd := outcome{ok: true, n: 3, dir: true}
+		bad := outcome{}
+		switch rng.Intn(3) {
+		case 0: // a Create whose OpenDir fails, racing clunk/remove and a re-allocation of the fid
+			scenario = []opDesc{
+				{kind: "create", a: 1, c: 0, script: []outcome{okd, bad, okd}},
+				{kind: pickStr(rng, "clunk", "remove"), a: 1, script: genScript(rng, errp)},
+				{kind: "attach", a: 1, b: nofid, script: genScript(rng, 10)},
+				{kind: "stat", a: 1, script: genScript(rng, errp)},
+			}
+		case 1: // a failing allocation racing clunk and use of the new fid
+			scenario = []opDesc{
+				{kind: "walk", a: 0, b: 3, c: int64(rng.Intn(2)), d: 1, script: []outcome{bad, bad, bad}},
+				{kind: pickStr(rng, "clunk", "remove"), a: 3, script: genScript(rng, errp)},
+				{kind: "stat", a: 3, script: genScript(rng, errp)},
+				{kind: "clunk", a: 0, script: genScript(rng, errp)},
+			}
+		default: // in-place walk racing clunk and clone
+			scenario = []opDesc{
+				{kind: "walk", a: 1, b: 1, c: 1, d: 1, script: genScript(rng, errp)},
+				{kind: "clunk", a: 1, script: genScript(rng, errp)},
+				{kind: "walk", a: 1, b: 2, c: 0, d: 1, script: genScript(rng, errp)},
+				{kind: "walk", a: 0, b: 1, c: 1, d: 1, script: genScript(rng, 10)},
+			}
+		}
+		for i := len(scenario) - 1; i > 0; i-- {
+			j := rng.Intn(i + 1)
+			scenario[i], scenario[j] = scenario[j], scenario[i]
+		}
+		if nconc < len(scenario) {
+			nconc = len(scenario)
+		}
+	}
 	maxInFlight, sawBlocked := 0, false
 	for steps := 0; steps < 200; steps++ {
 		p := parked()
@@ -717,6 +765,9 @@ func runCase(rng *prng.R) caseResult {
 			var o opDesc
 			for try := 0; ; try++ {
 				o = genOp(rng, errp)
+				if startedConc < len(scenario) && try == 0 {
+					o = scenario[startedConc]
+				}
 				if f := o.newFid(); f < 0 || !pending[f] {
 					break
 				}
@@ -958,13 +1009,13 @@ func main() {
 	r := rep.Open()
 	defer r.Close()
 	r.Rule = "each case: a fresh p9p.SFileSys over a gated scripted FileSys; 0-4 sequential set-up operations (attach/walk/open/...) then 2-6 operations on fids {0,1,2,3,7,NOFID} started and released by an on-line PRNG schedule (start next op | let a parked FileSys call return), FileSys outcomes scripted per call with 5/20/40% errors; the client never has two allocations of one new fid in flight. Non-trivial: at some rest point two or more operations were in flight or one was blocked on a mutex. Distinct by case text."
-	total := r.N(200, 5000)
+	total := r.N(400, 20000)
 	if nOverride > 0 {
 		total = nOverride
 	}
 	per := 50
 	if total > 1000 {
-		per = 250
+		per = 500
 	}
 	nb := (total + per - 1) / per
 	par := runtime.NumCPU()
